@@ -89,6 +89,7 @@ def _summarise(eng, case, out, idx, want_sample):
         'sigs': out.get('sigs'),
         'violations': out.get('violations', []),
         'extra': out.get('extra', {}),
+        'sets': {k: sorted(set(v))[:4000] for k, v in (out.get('sets') or {}).items()},
     }
     if s['violations']:
         s['case'] = case
@@ -320,7 +321,10 @@ def run_check(prop, tier, verif_seed, procs=None, out_evidence=True, max_runs=No
     vac = 0
     samples = []
     extra = {}
+    named_sets = {}
     for r in runs:
+        for k, v in (r.get('sets') or {}).items():
+            named_sets.setdefault(k, set()).update(v)
         evals += r['evals']
         steps += r['steps']
         sim_time += r['sim_time']
@@ -442,6 +446,8 @@ def run_check(prop, tier, verif_seed, procs=None, out_evidence=True, max_runs=No
             'procs': procs,
         }
         cov.update(extra)
+        for k, v in named_sets.items():
+            cov['distinct_' + k] = len(v)
         if getattr(eng, 'EXHAUSTIVE_NOTE', None):
             cov['exhaustive_axes'] = eng.EXHAUSTIVE_NOTE
         ev = {
